@@ -385,9 +385,121 @@ def isolation_cases(rep):
     return n
 
 
+def cancelled_waiter_cases(rep):
+    """The caller of the pending command has just been cancelled (or its time-out has just fired) but has not run again yet;
+    in that very loop iteration a frame with the command's sequence number is read -- its reply, an invalidCommand answer, a
+    foreign frame ID, a truncated reply.  The receive entry point must not raise (a CancelledError is a BaseException and passes
+    an ``except Exception``); commands issued afterwards still complete."""
+    n = 0
+    for v in ezspenv.VERSIONS:
+        for how in ("cancel", "timeout"):
+            for kind in ("reply", "invalid", "foreign-id", "truncated"):
+                n += 1
+                ctx = Ctx(v, "getEui64")
+                try:
+                    if how == "cancel":
+                        ctx.task.cancel()
+                    else:
+                        dl = ctx.loop.next_deadline()
+                        if dl is None:
+                            continue
+                        ctx.loop._vtime = max(ctx.loop._vtime, dl)
+                        ctx.loop.fire_timers()          # the time-out callback has run, the waiter has not resumed yet
+                    cid = ctx.cls.COMMANDS["getEui64"][0]
+                    frame = {"reply": ezspenv.enc_response_hdr(v, ctx.pseq, cid) + bytes(range(8)),
+                             "invalid": ezspenv.enc_response_hdr(v, ctx.pseq, 0x58) + b"\x36",
+                             "foreign-id": ezspenv.enc_response_hdr(v, ctx.pseq, ctx.cls.COMMANDS["getNodeId"][0]) + b"\x34\x12",
+                             "truncated": ezspenv.enc_response_hdr(v, ctx.pseq, cid) + bytes(range(3))}[kind]
+                    rp = {"world": "c08", "kind": "cancelled-waiter", "version": v, "how": how, "frame": kind}
+                    try:
+                        ctx.ezsp.frame_received(frame)
+                    except BaseException as e:  # noqa
+                        rep.add_violation("C08|cancelled-waiter|raised", f"v{v}: the pending command's caller was just {'cancelled' if how == 'cancel' else 'timed out'} (not yet resumed) "
+                                          f"and a {kind} frame with its sequence number arrived: frame_received raised {type(e).__name__}: {e}", rp)
+                    try:
+                        ctx.loop.settle()
+                    except BaseException as e:  # noqa
+                        rep.add_violation("C08|cancelled-waiter|loop", f"v{v}: {how} + {kind}: the loop raised {type(e).__name__}: {e}", rp)
+                    # a command issued afterwards completes normally
+                    n_sent = len(ctx.gw.sent)
+                    t2 = ctx.loop.create_task(ctx.ezsp._command("getNodeId"))
+                    ctx.loop.settle()
+                    ok = False
+                    if len(ctx.gw.sent) == n_sent + 1:
+                        seq = ctx.gw.sent[-1][1][0]
+                        ctx.ezsp.frame_received(ezspenv.enc_response_hdr(v, seq, ctx.cls.COMMANDS["getNodeId"][0]) + b"\x78\x56")
+                        ctx.loop.settle()
+                        ok = t2.done() and not t2.cancelled() and t2.exception() is None and list(t2.result()) == [0x5678]
+                    if not ok:
+                        rep.add_violation("C08|cancelled-waiter|afterwards", f"v{v}: {how} + {kind}: a command issued afterwards did not complete normally", rp)
+                    if not t2.done():
+                        t2.cancel()
+                        ctx.loop.settle()
+                finally:
+                    ctx.close()
+    return n
+
+
+def cross_version_history_cases(rep):
+    """Frames that are unknown (or undecodable) for the legacy handler of a fresh connection are contained there; after the
+    negotiation to version N on the same EZSP object -- and on another EZSP object of version N in the same process -- the commands
+    that own those frame IDs in version N still complete normally on their replies."""
+    n = 0
+    for v in ezspenv.VERSIONS:
+        if v == 4:
+            continue
+        cls_n = ezspenv.handler_class(v)
+        cls_4 = ezspenv.handler_class(4)
+        ids4 = {cid for cid, _, _ in cls_4.COMMANDS.values()}
+        fresh = [(name, cid, tx, rx) for name, (cid, tx, rx) in cls_n.COMMANDS.items()
+                 if cid not in ids4 and cid <= 0xFF and isinstance(tx, dict) and not tx and isinstance(rx, dict)][:6]
+        if not fresh:
+            continue
+        loop = VLoop().enter()
+        try:
+            a, gw = ezspenv.make_ezsp(loop, 4)
+            got = []
+            a.add_callback(lambda nme, args: got.append(nme))
+            for name, cid, tx, rx in fresh:
+                n += 1
+                try:
+                    a.frame_received(ezspenv.enc_response_hdr(4, 0x77, cid) + b"\x00\x01\x02\x03")
+                except BaseException as e:  # noqa
+                    rep.add_violation("C08|cross-version|raised", f"frame ID {cid:#x} (unknown to the legacy handler) raised {type(e).__name__}", {"world": "c08", "kind": "cross-version", "version": v})
+            loop.settle()
+            if got:
+                rep.add_violation("C08|cross-version|callback", f"frames unknown to the legacy handler invoked callbacks {got}", {"world": "c08", "kind": "cross-version", "version": v})
+            a._switch_protocol_version(v)
+            b, gwb = ezspenv.make_ezsp(loop, v)
+            for ez, g, label in ((a, gw, "the same EZSP object after negotiation"), (b, gwb, "another EZSP object in the process")):
+                for name, cid, tx, rx in fresh:
+                    n += 1
+                    vals = [gv.one(ty, "mid") for ty in rx.values()]
+                    n_sent = len(g.sent)
+                    task = loop.create_task(ez._command(name))
+                    loop.settle()
+                    ok = False
+                    if len(g.sent) == n_sent + 1:
+                        seq = g.sent[-1][1][0]
+                        ez.frame_received(ezspenv.enc_response_hdr(v, seq, cid) + ezspenv.encode_values(rx, vals))
+                        loop.settle()
+                        ok = task.done() and not task.cancelled() and task.exception() is None
+                    if not ok:
+                        rep.add_violation("C08|cross-version|afterwards", f"v{v} {name} (frame ID {cid:#x}, seen as an unknown frame by the legacy handler earlier) on {label}: "
+                                          f"the command did not complete on its own reply", {"world": "c08", "kind": "cross-version", "version": v})
+                    if not task.done():
+                        task.cancel()
+                        loop.settle()
+        finally:
+            loop.shutdown()
+    return n
+
+
 def main(tier: str) -> int:
     rep = report.Report("C08", tier, "exploration")
     n_iso = isolation_cases(rep)
+    n_iso += cancelled_waiter_cases(rep)
+    n_iso += cross_version_history_cases(rep)
     for v in ezspenv.VERSIONS:
         m = queued_behind_orphan(v)
         n_iso += 1
